@@ -1,6 +1,7 @@
 SPECIFICATION Spec
 CONSTANTS
  StrictCmdline = TRUE
+ FirstRunReadsCmdline = FALSE
  MaxChunks = 2
  Family = "all"
  Scripts <- MCScripts
